@@ -32,8 +32,15 @@ def make_images(ctx, n, nops):
         cfg = "100000 1073741824 %d %d 1 %d" % (recs, rnd.choice([150, 400, 1 << 30]), rnd.choice(gen.CFG_RBUF))
         ops, st, sim = gen.gen_history(rnd, nops, p_reject=0.0, max_batch=1, reads=False, noop_purge=False)
         ops = [o for o in ops if o[0] in "VATPCUF"]
-        cases.append("SEQ %s | %s" % (cfg, " ; ".join(gen.sync_ops(ops) + ["F 1", "I", "G", "R 0 100000", "K"])))
-        hist.append(ops)
+        mid = []
+        if len(sim.entries) >= 3 and len(cases) % 3 == 2:
+            # "left-over" images: a last purge is flushed, and the chunk files it made obsolete are
+            # put back (a crash after the purge record became durable and before the unlinks)
+            e = sim.entries[len(sim.entries) // 2]
+            # (followed by votes that push further records, and chunks, behind the purge record)
+            mid = ["F 1", "I", "K", "P %d %d" % (e[0], e[1])] + ["V %d 1" % (3000000000 + i) for i in range(rnd.randint(2, 2 * recs + 1))]
+        cases.append("SEQ %s | %s" % (cfg, " ; ".join(gen.sync_ops(ops) + mid[:3] + gen.sync_ops(mid[3:]) + ["F 1", "I", "G", "R 0 100000", "K"])))
+        hist.append(ops + mid[3:])
     impl = C.run_impl(cases, ctx.wd, "images")
     model = C.run_model(cases, ctx.wd, "images")
     core.compare(ctx, "bytes(b)-clean-images", cases, impl, model)
@@ -43,6 +50,16 @@ def make_images(ctx, n, nops):
         if not f[-1].startswith("disk "):
             continue
         disk = parse_disk(f[-1])
+        allops0 = ["open"] + [o.strip() for o in c.split("|", 1)[1].split(";")]
+        ks = [k for k, o in enumerate(allops0[:-1]) if o == "K" and k < len(f)]
+        leftover = False
+        if ks:
+            before = parse_disk(f[ks[0]])
+            gone = [(fid, d) for fid, d in before if disk and fid < disk[0][0]]
+            if gone:
+                disk = gone + disk
+                leftover = True
+                ctx.count("leftover_images")
         # journaling writes in order (a purge at an already purged index writes nothing)
         allrecs = []
         try:
@@ -55,7 +72,7 @@ def make_images(ctx, n, nops):
         # results of the write calls, aligned with the operations of the case
         allops = ["open"] + [o.strip() for o in c.split("|", 1)[1].split(";")]
         results = [(o, f[k]) for k, o in enumerate(allops) if k < len(f) and o and o[0] in "VATPCU"]
-        imgs.append(dict(case=c, ops=results, disk=disk, recs=allrecs, clean_state=f[-3], clean_read=f[-2]))
+        imgs.append(dict(case=c, ops=results, disk=disk, recs=allrecs, clean_state=f[-3], clean_read=f[-2], leftover=leftover))
     return imgs
 
 
@@ -421,7 +438,8 @@ def run_C09(ctx):
     proof = core.proof_stage("C09")
     core.builds()
     rnd = ctx.rnd
-    imgs = [im for im in make_images(ctx, ctx.scale(10, 80), ctx.scale(12, 30)) if len(im["disk"]) >= 2]
+    imgs = [im for im in make_images(ctx, ctx.scale(12, 80), ctx.scale(12, 30)) if len(im["disk"]) >= 2]
+    imgs.sort(key=lambda im: 0 if im.get("leftover") else 1)        # left-over images first: at least one is swept
     imgs = imgs[: ctx.scale(3, 24)]
     ncases_total, distinct, samples = 0, set(), []
     sweep_ok, bad = True, 0
